@@ -504,6 +504,28 @@ def process(R, T, data, driver, cls, repro, path=None, qs=None):
 
 # ---------------------------------------------------------------- mutation engines
 
+def attrs_as_elements(doc):
+    """every declared attribute of the request sent as a child element of the same name instead (one document each, the value as it was)"""
+    out = []
+    els = [e for e in doc.iter() if isinstance(e.tag, str)]
+    for i, e in enumerate(els):
+        for k in e.attrib:
+            if 'XMLSchema-instance' in k or k in ('id', 'href'):
+                continue
+            for qualified in (False, True):
+                d = copy.deepcopy(doc)
+                x = [y for y in d.iter() if isinstance(y.tag, str)][i]
+                ns = etree.QName(x).namespace
+                if qualified and (not ns or k.startswith('{')):
+                    continue
+                c = etree.Element('{%s}%s' % (ns, k) if qualified else k)
+                c.text = x.get(k)
+                x.insert(0, c)
+                del x.attrib[k]
+                out.append(('mut:attr_as_element', etree.tostring(d)))
+    return out
+
+
 def xml_mutants(rng, doc, n):
     out = []
     elems = [e for e in doc.iter() if isinstance(e.tag, str)]
@@ -512,7 +534,7 @@ def xml_mutants(rng, doc, n):
         d = copy.deepcopy(doc)
         els = [e for e in d.iter() if isinstance(e.tag, str)]
         lv = [e for e in els if len(e) == 0]
-        op = rng.choice(('leaf', 'leaf', 'leaf', 'attr', 'attr', 'delete', 'dup', 'unknown', 'nest', 'text_in_complex', 'rename', 'nil', 'reorder', 'empty',
+        op = rng.choice(('leaf', 'leaf', 'leaf', 'attr', 'attr', 'attr_as_element', 'delete', 'dup', 'unknown', 'nest', 'text_in_complex', 'rename', 'nil', 'reorder', 'empty',
                          'entity', 'entity', 'pi', 'fault_body', 'href'))
         try:
             if op == 'leaf' and lv:
@@ -527,6 +549,19 @@ def xml_mutants(rng, doc, n):
                 if kids and rng.random() < .6:
                     k = rng.choice(kids)
                     e.set(rng.choice((etree.QName(k).localname, k.tag)), rng.choice(HOSTILE + [k.text or 'x']))
+            elif op == 'attr_as_element':
+                # what is declared an attribute is sent as a child element (and stays an attribute as well, or not)
+                cands = [x for x in els if any('XMLSchema-instance' not in k for k in x.attrib)]
+                if cands:
+                    e = rng.choice(cands)
+                    k = rng.choice([k for k in e.attrib if 'XMLSchema-instance' not in k])
+                    ns = etree.QName(e).namespace
+                    c = etree.SubElement(e, rng.choice((k, '{%s}%s' % (ns, k) if ns and not k.startswith('{') else k)))
+                    c.text = rng.choice(HOSTILE + [e.get(k)])
+                    if rng.random() < .5:
+                        e.insert(0, c)
+                    if rng.random() < .5:
+                        del e.attrib[k]
             elif op == 'delete' and len(els) > 1:
                 e = rng.choice(els[1:])
                 e.getparent().remove(e)
@@ -945,7 +980,7 @@ def run(spec, R):
                 pass
             # structure-aware mutations
             if kind in ('xml', 'soap11', 'soap12'):
-                muts = xml_mutants(rng, struct, nmut // 3)
+                muts = xml_mutants(rng, struct, nmut // 3) + attrs_as_elements(struct)
             else:
                 muts = dict_mutants(rng, T.codec, struct, nmut // 3)
             muts += raw_mutants(rng, kind, T, struct, tier)
